@@ -345,6 +345,32 @@ func (b *TermBank) Quo(x, y *Term) *Term {
 			return b.fromLin(l)
 		}
 	}
+	if y.IsConst() && y.k > 1 && x.lo >= 0 && x.op == OpAdd {
+		// (k*A + B) / k = A when 0 <= B < k on every model (B: the part whose coefficients k does not divide)
+		l := &lin{coef: map[*Term]int64{}}
+		b.linOf(x, 1, l)
+		la := &lin{coef: map[*Term]int64{}}
+		lb := &lin{coef: map[*Term]int64{}}
+		for a, c := range l.coef {
+			if c%y.k == 0 {
+				la.coef[a] = c / y.k
+			} else {
+				lb.coef[a] = c
+			}
+		}
+		la.k = l.k / y.k
+		lb.k = l.k % y.k
+		if lb.k < 0 {
+			lb.k += y.k
+			la.k--
+		}
+		if len(la.coef) > 0 && len(lb.coef) > 0 {
+			B := b.fromLin(lb)
+			if B.lo >= 0 && B.hi < y.k {
+				return b.fromLin(la)
+			}
+		}
+	}
 	lo, hi := -inf, inf
 	if y.IsConst() && y.k > 0 && x.lo > -inf && x.hi < inf {
 		lo, hi = x.lo/y.k, x.hi/y.k
